@@ -115,6 +115,12 @@ void hx_cases(std::vector<Case> &cases) {
   add_large<5, 4, 4, 1>(cases, 3);
   add_large<5, 6, 3, 0>(cases, 2);
   add_large<5, 2, 5, 2>(cases, 2);
+  // rules with more than 5 points (interpolation model of the exact rule, see symt/stub): order sums up to 24
+  add_large<6, 5, 5, 1>(cases, 3);
+  add_large<8, 7, 7, 1>(cases, 2);
+  add_large<11, 10, 11, 0>(cases, 2);
+  add_large<11, 12, 9, 0>(cases, 2);
+  add_large<13, 12, 12, 1>(cases, 2);
 }
 #else
 void hx_cases(std::vector<Case> &cases) { add_q<MAXQ>(cases); }
